@@ -26,6 +26,10 @@ pub enum Op {
 #[derive(Clone, Debug, Serialize, Deserialize)]
 pub struct Case {
     pub ops: Vec<Op>,
+    /// rule-only history: may run on a pooled calculator whose rules are deleted again afterwards
+    /// (every violation is confirmed on a fresh calculator before it is reported)
+    #[serde(default)]
+    pub pooled: bool,
 }
 
 // ---- the rules ---------------------------------------------------------------------------
@@ -279,7 +283,7 @@ impl Prop for C18 {
                     for _ in 0..len {
                         ops.push(ch.pick(&alphabet).clone());
                     }
-                    Some(Case { ops })
+                    Some(Case { ops, pooled: false })
                 },
             ));
         }
@@ -299,20 +303,89 @@ impl Prop for C18 {
                         choices.extend(alphabet.iter().cloned());
                         ops.push(ch.pick_dev(&choices).clone());
                     }
-                    Some(Case { ops })
+                    Some(Case { ops, pooled: false })
+                },
+            ));
+        }
+        {
+            let d = tier.pick(4, 5);
+            f.push(Family::new(
+                "rule-cycles",
+                Mode::Full,
+                &format!("every sequence of 1..={} operations over the 8 English rule operations only (add A | B | C | A', delete A | B | C | Z): registration order, deletion from the middle, re-registration", d),
+                move |ch| {
+                    let mut alphabet: Vec<Op> = Vec::new();
+                    for id in ['A', 'B', 'C', 'Q'] {
+                        alphabet.push(Op::AddRule("en".into(), id));
+                    }
+                    for n in ["A", "B", "C", "Z"] {
+                        alphabet.push(Op::DelRule("en".into(), n.into()));
+                    }
+                    let len = 1 + ch.choose(d);
+                    let mut ops = Vec::new();
+                    for _ in 0..len {
+                        ops.push(ch.pick(&alphabet).clone());
+                    }
+                    Some(Case { ops, pooled: true })
                 },
             ));
         }
         f
     }
 
+    fn rule(&self) -> String {
+        "cases are all operation histories within the stated alphabet and depth (every prefix is itself a case); each history runs on its own fresh calculator; non-trivial = return value of every call compared with the model (ordered list of surviving rules, map of user unit items), and after the last call 21 probe lines (en and tr) compared (a) differentially with a fresh calculator on which only the survivors were registered in order, (b) with the token the first matching, non-declining surviving rule returns, (c) with the chain arithmetic of the user family; distinct = distinct history".into()
+    }
+    fn assumptions(&self) -> Vec<String> {
+        vec![
+            "deleting a name that two surviving rules share is ambiguous in the statement: either the first or the last may be the one removed (both survivor sets are accepted)".into(),
+            "rules with an empty pattern, rules whose result matches their own pattern and set_date_rule interleavings are out of scope".into(),
+        ]
+    }
+
     fn exec(&self, ctx: &mut Ctx, c: &Case) -> Verdict {
+        let mut calc = match (c.pooled, ctx.pool.take()) {
+            (true, Some(calc)) => calc,
+            _ => ctx.fresh(&Cfg::default()),
+        };
+        let v = self.exec_on(ctx, c, &mut calc);
+        if c.pooled && v.violation.is_none() {
+            // undo: delete every custom rule again; a calculator that does not come back clean is dropped
+            let mut clean = true;
+            for name in ["A", "B", "C"] {
+                let mut guard = 0;
+                loop {
+                    match seam::guarded(|| calc.delete_rule("en".to_string(), name.to_string())) {
+                        Ok(true) => {
+                            guard += 1;
+                            if guard > 16 {
+                                clean = false;
+                                break;
+                            }
+                        }
+                        Ok(false) => break,
+                        Err(_) => {
+                            clean = false;
+                            break;
+                        }
+                    }
+                }
+            }
+            if clean {
+                ctx.pool = Some(calc);
+            }
+        }
+        v
+    }
+}
+
+impl C18 {
+    fn exec_on(&self, ctx: &mut Ctx, c: &Case, calc: &mut SmartCalc) -> Verdict {
         let mut v = Verdict { input: format!("{:?}", c.ops), class: "history-compared", compared: true, ..Default::default() };
-        let mut calc = ctx.fresh(&Cfg::default());
         let mut models = vec![Model::default()];
         let mut trace = String::new();
         for (i, op) in c.ops.iter().enumerate() {
-            let got = match apply(&mut calc, op) {
+            let got = match apply(calc, op) {
                 Ok(b) => b,
                 Err(p) => {
                     v.violation = Some(format!("step {}: panic in {:?}: {}", i, op, p.message));
@@ -342,7 +415,7 @@ impl Prop for C18 {
             }
         }
         // probes after the last operation
-        let observed = probe(&calc);
+        let observed = probe(calc);
         v.evals += observed.len() as u64;
         v.observed = format!("{}| {}", trace, observed.iter().map(|(p, r)| format!("{} -> {}", p, r.brief())).collect::<Vec<_>>().join(" ;; "));
         for (p, r) in observed.iter() {
@@ -464,13 +537,4 @@ impl Prop for C18 {
         v
     }
 
-    fn rule(&self) -> String {
-        "cases are all operation histories within the stated alphabet and depth (every prefix is itself a case); each history runs on its own fresh calculator; non-trivial = return value of every call compared with the model (ordered list of surviving rules, map of user unit items), and after the last call 21 probe lines (en and tr) compared (a) differentially with a fresh calculator on which only the survivors were registered in order, (b) with the token the first matching, non-declining surviving rule returns, (c) with the chain arithmetic of the user family; distinct = distinct history".into()
-    }
-    fn assumptions(&self) -> Vec<String> {
-        vec![
-            "deleting a name that two surviving rules share is ambiguous in the statement: either the first or the last may be the one removed (both survivor sets are accepted)".into(),
-            "rules with an empty pattern, rules whose result matches their own pattern and set_date_rule interleavings are out of scope".into(),
-        ]
-    }
 }
